@@ -250,8 +250,28 @@ Theorem http_response_exact : forall async base defbuf version c ops,
   http_wire (format_http_headers (hdrs_at_out base ops) version) (f_server (k_fmt c)) (script_body ops) (wire_bytes cf).
 Proof. exact http_exact. Qed.
 Print Assumptions http_response_exact.
-(* PARTIAL: with an application-declared Content-Length (overrun => error, shortfall) no Coq theorem; blocking-loop
-   liveness (k_err = false is a hypothesis: it fails only when the socket reports an error) *)
+(* HTTP with an application-declared Content-Length: the header block (which already carries the length) and the
+   body verbatim; a write that would exceed the announced length is refused: error, nothing of it is sent *)
+Theorem http_framing_sound_declared_length : forall f l g0 e0 t,
+  f_proto f = Http -> f_hdr_done f = false -> f_ocl f = Some l ->
+  stream f ((g0, e0) :: t) =
+  (f_hdr f ++ f_server f ++ (if f_cka f then CONN_KA else CONN_CLOSE) ++ CRLF) ++ concat (map data_of ((g0, e0) :: t)).
+Proof. exact http_declared_length_response. Qed.
+Print Assumptions http_framing_sound_declared_length.
+Theorem http_content_length_overrun_is_error : forall f l g e,
+  f_proto f = Http -> f_hdr_done f = true -> f_chunked f = false -> f_ocl f = Some l -> l < f_owritten f + gsize g ->
+  snd (format_output f g e) = true.
+Proof. exact http_overrun_is_error. Qed.
+Print Assumptions http_content_length_overrun_is_error.
+Theorem format_error_stops_the_write : forall c g e f1 nd,
+  k_err c = false -> format_output (k_fmt c) g e = (f1, nd, true) ->
+  sent (fst (nonblocking_write c g e)) = sent c /\ k_err (fst (nonblocking_write c g e)) = true /\
+  sent (blocking_write c g e) = sent c /\ k_err (blocking_write c g e) = true.
+Proof. exact format_error_sends_nothing. Qed.
+Print Assumptions format_error_stops_the_write.
+(* PARTIAL: a response that writes fewer bytes than it announced is not detected by the code (nor claimed here);
+   blocking-loop liveness: k_err = false is a hypothesis of the blocking and end-to-end theorems (the model raises it
+   only for would-block on a blocking socket or a Content-Length overrun) *)
 
 Example response_nonvacuous :
   let c := new_conn Http true true 1 [83;58;120;13;10] [] [3;0;1;0;7;2] [] in
